@@ -243,6 +243,7 @@ theorem KSInv.exec {sys : Sys} (h : KSInv sys) (a : Action) (hf : a.fresh = true
         (fun u hl _ => hl.touchRes h.base.store g k n l)
   | stepW n o c => simp [Action.fresh] at hf
   | xaRaw n c => simp [Action.fresh] at hf
+  | ef n0 => simp [Action.fresh] at hf
   | start n =>
     refine ⟨hbase, ?_, ?_⟩
     · simp only [Sys.exec]
@@ -352,6 +353,7 @@ theorem before_ready_core {pre : Sys} (hbase : SysInv pre)
   | er g k n l => exact (old (by rw [← (SameUsages.touchRes pre.store g k n l).usages]; exact hu')).elim
   | stepW n o c => simp [Action.fresh] at hfa
   | xaRaw n c => simp [Action.fresh] at hfa
+  | ef n0 => simp [Action.fresh] at hfa
   | start n =>
     refine (old ?_).elim
     simp only [Sys.exec] at hu'
